@@ -12,7 +12,7 @@ Any MIR construct or callee outside the supported subset raises Unsupported -> t
 import copy, re
 import z3
 
-from .parse import Unsupported, Place, Operand, split_top
+from .parse import Unsupported, SOURCE_GENERICS, Place, Operand, split_top
 
 BV = z3.BitVecSort
 BYTES = z3.SeqSort(z3.BitVecSort(8))
@@ -57,6 +57,16 @@ class Opaque:
 
     def __repr__(self):
         return "Opaque(%s)" % self.tag
+
+
+class IterV(Opaque):
+    """core::slice::Iter<'_, u8> over a slice value (kept compatible with the older Opaque("iter", slice) form)"""
+
+    def __init__(self, sl):
+        Opaque.__init__(self, "iter", sl)
+
+    def __repr__(self):
+        return "IterV(%r)" % (self.e,)
 
 
 class FnV:
@@ -173,6 +183,8 @@ class Executor:
         self.blocks_visited = 0
         self.calls_inlined = set()
         self.calls_summarised = set()
+        self.loops_accelerated = set()
+        self.seq_xor_fold = None      # layer S: symbol standing for the XOR fold of a byte sequence (set by the relation builder)
 
     # ------------------------------------------------------------ helpers
     def fresh(self, prefix, sort):
@@ -379,7 +391,7 @@ class Executor:
         if mc:
             return ClosureV(mc.group(1).strip())
         if re.search(r"::promoted\[\d+\]$", t):
-            return self.promoted(t)
+            return self.promoted(t, f)
         m = re.fullmatch(r"(?:core::num::<impl )?([iu](?:8|16|32|64|128|size))>?::(MAX|MIN|BITS)", t)
         if m:
             w, sg = INT_TY[m.group(1)]
@@ -396,9 +408,13 @@ class Executor:
                 return z3.BitVecVal(c[1], INT_TY[c[0]][0])
         raise Unsupported("constant %r" % t[:120])
 
-    def promoted(self, name):
+    def promoted(self, name, fctx=None):
         """a promoted constant: run its body and strip the references (a reference to a scalar is the scalar)"""
         cands = [n for n in self.funcs if n == name or name.endswith("::" + n)]
+        if len(cands) != 1 and fctx is not None:
+            # trait impls: the use site spells  <T as Trait>::f::promoted[k],  the definition  mod::<impl at ..>::f::promoted[k]
+            k = re.search(r"::promoted\[\d+\]$", name).group(0)
+            cands = [n for n in self.funcs if n == fctx.name + k]
         if len(cands) != 1:
             raise Unsupported("promoted constant %s" % name)
         st = State()
@@ -644,7 +660,9 @@ class Executor:
         c = callee.strip()
         if c in self.funcs:
             return self.funcs[c]
-        plain = strip_generics(c)
+        plain = strip_generics(c).strip()
+        while plain.endswith("::"):
+            plain = plain[:-2].strip()
         last = plain.split("::")[-1].strip()
         cands = self.by_last.get(last, [])
         if len(cands) == 1:
@@ -669,12 +687,14 @@ class Executor:
         return None
 
     # ------------------------------------------------------------ execution
-    def run(self, f, argvals, st, depth=0):
+    def run(self, f, argvals, st, depth=0, subst=None):
         """execute function f on argvals from state st; returns [Outcome]"""
         if depth > 40:
             raise Unsupported("call depth")
         st = st.clone()
         frame = {}
+        if subst:
+            frame["__subst"] = subst
         for (loc, _), v in zip(f.args, argvals):
             frame[loc] = v
         st.frames.append(frame)
@@ -787,6 +807,11 @@ class Executor:
                     bb = t.target
                     continue
                 if t.kind == "call":
+                    if self.ITER_NEXT.search(self.norm_callee(t.func.strip())):
+                        exit_bb = self.accelerate_loop(s, f, bb, t)
+                        if exit_bb is not None:
+                            bb = exit_bb
+                            continue
                     argv = [self.eval_operand(s, f, a) for a in t.args]
                     results = self.call(s, f, t.func, t.args, argv, depth)
                     cont = []
@@ -810,6 +835,141 @@ class Executor:
                 raise Unsupported("terminator %s" % t.kind)
         return outs
 
+
+    # ------------------------------------------------------------ loops over a byte slice
+    ITER_NEXT = re.compile(r"^<(?:std::|core::)?slice::Iter<'_, u8> as Iterator>::next$|^<(?:std::|core::)?str::Bytes<'_> as Iterator>::next$")
+
+    @staticmethod
+    def _same(a, b):
+        if a is b:
+            return True
+        if z3.is_expr(a) and z3.is_expr(b):
+            return a.eq(b)
+        return False
+
+    def _run_chain(self, st, f, header_bb, dest, chain, item):
+        """one loop iteration on state st: the item is bound, the straight-line body blocks run, then the statements of the
+        header (which precede the next call).  Returns False if the body is not straight-line assignments."""
+        self.write_place(st, f, dest, EnumV("Option", 1, {1: [item]}))
+        for n in chain + [header_bb]:
+            blk = f.block(n)
+            for stmt in blk["stmts"]:
+                if stmt.kind != "assign":
+                    return False
+                self.write_place(st, f, stmt.place, self.eval_rvalue(st, f, stmt.rv, self.place_type(f, stmt.place)))
+        return True
+
+    def accelerate_loop(self, s, f, bb, t):
+        """`for x in <byte slice> { straight-line body }` : the loop
+               bb:  _o = Iter::next(&mut it) -> A;   A: switchInt(discriminant(_o)) -> [0: exit, 1: body];  body ... -> goto bb
+           is replaced by its closed form: the loop-carried scalars are folded over the slice (guarded by position in layer T,
+           the layer's XOR-fold symbol in layer S).  Returns the exit block, or None when the loop does not have this shape
+           (the caller then executes Iter::next like any other call)."""
+        try:
+            if t.dest is None or t.target is None or len(t.args) != 1:
+                return None
+            r = self.eval_operand(s, f, t.args[0])
+            it = self.deref_val(s, r)
+            if not (isinstance(r, RefV) and isinstance(it, Opaque) and it.tag == "iter"):
+                return None
+            sl = self.deref_val(s, it.e)
+            A = f.block(t.target)
+            sw = A["term"]
+            if sw.kind != "switch" or len(A["stmts"]) != 1 or A["stmts"][0].kind != "assign" or A["stmts"][0].rv.kind != "discriminant":
+                return None
+            if A["stmts"][0].rv.place.local != t.dest.local or A["stmts"][0].rv.place.proj or t.dest.proj:
+                return None
+            cases = dict((int(k), tgt) for k, tgt in sw.cases)
+            if set(cases) != {0, 1}:
+                return None
+            exit_bb, cur = cases[0], cases[1]
+            chain = []
+            while cur != bb:
+                if cur in chain or len(chain) > 16:
+                    return None
+                blk = f.block(cur)
+                if blk["term"].kind != "goto":
+                    return None
+                chain.append(cur)
+                cur = blk["term"].target
+            depth_here = len(s.frames) - 1
+            before = s.frames[-1]
+            # pass 1: which locals does one iteration change?
+            s1 = s.clone()
+            item1 = self.fresh("item", z3.BitVecSort(8))
+            if not self._run_chain(s1, f, bb, t.dest, chain, item1):
+                return None
+            if len(s1.pc) != len(s.pc):
+                return None
+            for k in range(depth_here):
+                fa, fb = s.frames[k], s1.frames[k]
+                if set(fa) != set(fb) or any(not self._same(fa[x], fb[x]) for x in fa):
+                    return None          # the body writes through a reference into a caller's frame
+            changed = [loc for loc in s1.frames[-1] if not self._same(s1.frames[-1][loc], before.get(loc, UNINIT))]
+            carried = [loc for loc in changed if z3.is_expr(before.get(loc, UNINIT))]
+            temps = [loc for loc in changed if loc not in carried]
+            for loc in temps:
+                if loc in before and not isinstance(before[loc], (Uninit, RefV, EnumV)) and loc != t.dest.local:
+                    return None
+            # pass 2: the step function over fresh symbols
+            s2 = s.clone()
+            syms = {}
+            for loc in carried:
+                syms[loc] = self.fresh("carried", before[loc].sort())
+                s2.frames[-1][loc] = syms[loc]
+            item = self.fresh("item", z3.BitVecSort(8))
+            if not self._run_chain(s2, f, bb, t.dest, chain, item) or len(s2.pc) != len(s.pc):
+                return None
+            step = {}
+            for loc in carried:
+                v = s2.frames[-1].get(loc)
+                if not z3.is_expr(v) or not v.sort().eq(before[loc].sort()):
+                    return None
+                step[loc] = v
+            final = self.fold_slice(sl, [before[loc] for loc in carried], [syms[loc] for loc in carried], item, [step[loc] for loc in carried])
+            if final is None:
+                return None
+            for loc, v in zip(carried, final):
+                s.frames[-1][loc] = v
+            for loc in temps:
+                s.frames[-1].pop(loc, None)      # iteration temporaries: dead after the loop (a later read fails closed)
+            self.write_place(s, f, t.dest, EnumV("Option", 0, {}))
+            self.write_ref(s, r, [], Opaque("iter-exhausted"))
+            self.loops_accelerated.add("%s bb%d" % (f.name, bb))
+            # the header's statements (already executed once before the call) and the switch block are skipped: re-establish
+            # the discriminant temporary for completeness
+            self.write_place(s, f, A["stmts"][0].place, z3.BitVecVal(0, 64))
+            return exit_bb
+        except Unsupported:
+            return None
+
+    def fold_slice(self, sl, inits, syms, item, steps):
+        """closed form of folding `steps` (terms over syms and item) over the bytes of sl, starting from inits"""
+        def is_plain_xor():
+            if len(steps) != 1 or steps[0].sort() != z3.BitVecSort(8):
+                return False
+            sv = z3.Solver()
+            sv.add(steps[0] != (syms[0] ^ item))
+            return sv.check() == z3.unsat
+        if hasattr(sl, "line") and hasattr(sl.line, "fold"):
+            ln = sl.line
+            if is_plain_xor() and z3.is_bv_value(z3.simplify(inits[0])) and z3.simplify(inits[0]).as_long() == 0:
+                return [ln.fold(sl.s, sl.e, z3.BitVecVal(0, 8), lambda acc, b: acc ^ b, key="xor")]
+            cur = list(inits)
+            lo, hi = z3.simplify(sl.s), z3.simplify(sl.e)
+            for j in range(ln.N):
+                pj = z3.BitVecVal(j, lo.size())
+                g = z3.And(z3.ULE(lo, pj), z3.ULT(pj, hi))
+                sub = list(zip(syms, cur)) + [(item, ln.bytes[j])]
+                new = [z3.substitute(e, *sub) for e in steps]
+                cur = [z3.If(g, n, c) for n, c in zip(new, cur)]
+            return cur
+        if isinstance(sl, SeqV) and self.seq_xor_fold is not None:
+            if is_plain_xor() and z3.is_bv_value(z3.simplify(inits[0])) and z3.simplify(inits[0]).as_long() == 0:
+                v = self.seq_xor_fold(sl)
+                return None if v is None else [v]
+        return None
+
     @staticmethod
     def norm_callee(c):
         """one spelling for paths that differ between std and no_std dumps"""
@@ -821,8 +981,34 @@ class Executor:
         c = re.sub(r"\berrors::err::Error\b", "err::Error", c)
         return c
 
+    @staticmethod
+    def last_generic_args(c):
+        """type/const arguments written on the last path segment  f::<'_, A, B>  -> ["A", "B"]"""
+        c = c.strip()
+        if not c.endswith(">"):
+            return []
+        depth, i = 0, len(c) - 1
+        while i >= 0:
+            if c[i] == ">" and (i == 0 or c[i - 1] != "-"):
+                depth += 1
+            elif c[i] == "<":
+                depth -= 1
+                if depth == 0:
+                    break
+            i -= 1
+        if i < 2 or c[i - 2:i] != "::":
+            return []
+        from .parse import split_top
+        return [a.strip() for a in split_top(c[i + 1:-1]) if a.strip() and not a.strip().startswith("'")]
+
     def call(self, st, f, callee, args, argv, depth):
         c = self.norm_callee(callee.strip())
+        # inside an instance of a generic function: the type parameters stand for the arguments of this instance
+        sub = st.frames[-1].get("__subst") if st.frames else None
+        if sub:
+            for k, v in sub.items():
+                c = re.sub(r"\b%s\b" % re.escape(k), v, c)
+            c = self.norm_callee(c)
         for rx, fn in self.summaries:
             if rx.search(c):
                 self.calls_summarised.add(c if len(c) < 140 else c[:140])
@@ -830,7 +1016,17 @@ class Executor:
         target = self.resolve(c)
         if target is not None:
             self.calls_inlined.add(target.name)
-            return self.run(target, argv, st, depth + 1)
+            subst = None
+            gargs = self.last_generic_args(c)
+            params = SOURCE_GENERICS.get(target.name.split("::")[-1])
+            if gargs and params and len(params) == len(gargs):
+                subst = dict(zip(params, gargs))
+            return self.run(target, argv, st, depth + 1, subst=subst)
+        # tuple-variant constructor used as a function value (e.g. passed to map)
+        segs = [x.strip() for x in strip_generics(c).split("::") if x.strip()]
+        if len(segs) >= 2 and segs[-2] in self.enums and segs[-1] in self.enums[segs[-2]]:
+            idx = self.enums[segs[-2]].index(segs[-1])
+            return [Outcome(st, ret=EnumV(segs[-2], idx, {idx: list(argv)}))]
         raise Unsupported("callee outside the encoded subset: %s (called from %s)" % (c[:200], f.name if f is not None else "a function value"))
 
     def call_closure(self, st, clo, argvals, depth=0):
